@@ -210,6 +210,12 @@ def main(argv=None):
         print('replay: %s' % ('REPRODUCED' if bad else 'not reproduced'))
         return 1 if bad else 0
 
+    _prep_path()
+    from symx import facade as _fc
+    stub_errs = _fc.validate_stubs(seed)
+    if stub_errs:
+        print('HARNESS-ERROR stub validation failed: %s' % stub_errs)
+        return 2
     cfgs = H.configs(tier, seed)
     if a.only:
         cfgs = [c for c in cfgs if fnmatch.fnmatch(c.get('key', ''), a.only)]
